@@ -20,7 +20,9 @@ EXTENDS Forest
 (* Part 1: the algorithm *)
 
 \* saturating budget: count x trees (when unset) x oversampling
-SatMul(a, b, max) == IF a * b > max THEN max ELSE a * b
+\* (written without computing a * b when it would exceed max: TLC's integers are 32-bit, like the
+\* usize of the code is 64-bit - the pinned code overflowed here, finding F3)
+SatMul(a, b, max) == IF a = 0 \/ b = 0 THEN 0 ELSE IF a > max \div b THEN max ELSE a * b
 Budget(count, sk, over, ntrees, defOver, max) ==
   LET base == IF sk = 0 THEN SatMul(count, ntrees, max) ELSE sk
   IN SatMul(base, IF over = 0 THEN defOver ELSE over, max)
